@@ -16,7 +16,7 @@ OWNERS: Dict[str, Set[str]] = {
     "_unit": {"Quantity.__new__"},
     "raw-instance": {"Quantity.__new__", "QuantityMeta._make_unit",
                      "QuantityMeta.__new__", "ClassWithDefinitionMeta.__new__"},
-    "_equiv": {"QuantityMeta._make_unit"},
+    "_equiv": {"QuantityMeta._make_unit", "QuantityMeta._make_ref_unit"},
     "_definition": {"QuantityMeta._make_unit", "ClassWithDefinitionMeta.__new__"},
     "_qty_cls": {"QuantityMeta._make_unit"},
     "_symbol": {"QuantityMeta._make_unit"},
